@@ -19,6 +19,7 @@ import (
 	"encoding/binary"
 	"fmt"
 	"io"
+	"math"
 )
 
 // Header is either an HTTP header or meta-data pertaining to the request or response.
@@ -101,7 +102,14 @@ func (r *Reader) ReadFrame() (Frame, error) {
 		nl := binary.BigEndian.Uint32(lens[:4])
 		vl := binary.BigEndian.Uint32(lens[4:])
 
-		nv := make([]byte, int(nl+vl))
+		// nl+vl is computed in 64 bits: in 32 bits the sum of two untrusted
+		// lengths can wrap around to a small value.
+		total := uint64(nl) + uint64(vl)
+		if total > math.MaxInt32 {
+			return nil, fmt.Errorf("marbl: header frame payload too large: %d bytes", total)
+		}
+
+		nv := make([]byte, total)
 		if _, err := io.ReadFull(r.r, nv); err != nil {
 			return nil, err
 		}
